@@ -4,6 +4,10 @@ set -e
 cd "$(dirname "$0")"
 export CARGO_NET_OFFLINE=true
 python3 tools/gen_params.py
-(cd lean && lake build)
+MODS=$(python3 -c "
+import json
+r = json.load(open('registry.json'))
+print(' '.join(sorted({m for e in r.values() if not e.get('disabled') for m in e['lean_modules']})))")
+(cd lean && lake build $MODS sldriver)
 (cd harness && cargo build --release --offline)
 echo "setup done"
